@@ -86,6 +86,9 @@ class FakeSocket:
 
     def connect_ex(self, addr):
         self.net.s.yield_point("sock.connect")
+        fails = getattr(self.net, "connect_failures", None)
+        if fails and not self.harness_side:
+            raise fails.pop(0)
         l = self.net.listeners.get(addr)
         if l is None or l.closed:
             self.state = "refused"
@@ -241,6 +244,10 @@ class VSocketMod:
         self.net = net
 
     def socket(self, *a):
+        # fault injection: the next socket() calls of the code under test fail (EMFILE, ENOBUFS ...)
+        fails = getattr(self.net, "socket_failures", None)
+        if fails:
+            raise fails.pop(0)
         return FakeSocket(self.net, *a)
 
     def getfqdn(self):
